@@ -339,9 +339,10 @@ func (ex *Exec) SymSlice(elem types.Type, name string, origin Origin, taint uint
 	}
 	arr := &OpaqueArr{Name: name, Elem: elem, Len: length, Taint: taint, elems: map[int]Val{}, Origin: origin}
 	if isByte(elem) {
-		arr.Content = sym.SymT(sym.Bytes, name, taint)
 		if n, ok := length.Int64(); ok {
-			sym.SetBytesLen(arr.Content, int(n))
+			arr.Content = sym.SymSized(name, int(n), taint)
+		} else {
+			arr.Content = sym.SymT(sym.Bytes, name, taint)
 		}
 	}
 	o := ex.newObj(name, types.NewArray(elem, -1), origin, &Cell{Arr: arr})
